@@ -34,6 +34,7 @@ type tmplTpl struct {
 	Body []tmplNode `json:"body"`
 	Ext  bool       `json:"ext"`
 	Ovr  []tmplNode `json:"ovr"`
+	Bn   string     `json:"bn"`
 }
 
 // a TLA+ function with an empty domain is printed as [] and a non-empty one as an object
@@ -122,6 +123,38 @@ var tmplValConc = map[string][]interface{}{
 	"x1": {"[IMAGE:im1]", "[IMAGE:nope]"},
 }
 
+// reference values: text around the placeholder of the name the token stands for (Tmpl!RefName)
+var tmplRefName = map[string]string{"rv1": "v1", "rv2": "v2", "rf1": "f1", "rf2": "f2"}
+
+var tmplRefShape = []string{"%s", "write %s where the name goes", "%s%s", "[%s]", "see %s", "%s."}
+
+func init() {
+	for tok, name := range tmplRefName {
+		ph := "{{" + name + "}}"
+		for _, f := range tmplRefShape {
+			tmplValConc[tok] = append(tmplValConc[tok], strings.ReplaceAll(f, "%s", ph))
+		}
+	}
+}
+
+// quoted names (block names, the name of the extended template): identifiers and free text
+var tmplNameConc = map[string][]string{
+	"b1": {"b1", "content", "main_2", "B", "x9", "_a"},
+	"b2": {"b2", "footer", "side_bar", "Aa", "y_0", "__"},
+	"h1": {"main-content", "side bar", "块名", "a.b", "sec:1", "é"},
+	"h2": {"foot-note", "the end", "页脚", "c.d.e", "#2", "x y-z"},
+	"t1": {"base", "layout", "Base_2", "T", "tpl1", "_b"},
+	"t2": {"base-layout", "my base", "基础模板", "a.b", "x/y", "doc (v2)"},
+}
+
+func tmplName(tok string, round int) string {
+	c := tmplNameConc[tok]
+	if len(c) == 0 {
+		return "?name:" + tok
+	}
+	return c[(round+tmplHash(tok))%len(c)]
+}
+
 // value class "one very long line" (just over 64 KiB, the default token limit of bufio.Scanner): takes the
 // place of the last plain concretisation of p2
 func init() {
@@ -194,7 +227,7 @@ func tmplSeqText(ns []tmplNode, round int, sb *strings.Builder) {
 		case "last":
 			sb.WriteString("{{@last}}")
 		case "block":
-			sb.WriteString("{{#block \"" + n.N + "\"}}")
+			sb.WriteString("{{#block \"" + tmplName(n.N, round) + "\"}}")
 			tmplSeqText(n.A, round, sb)
 			sb.WriteString("{{/block}}")
 		case "img":
@@ -203,6 +236,13 @@ func tmplSeqText(ns []tmplNode, round int, sb *strings.Builder) {
 			sb.WriteString("?node:" + n.T)
 		}
 	}
+}
+
+func tmplBaseName(t tmplTpl, round int) string {
+	if t.Bn == "" {
+		return "base"
+	}
+	return tmplName(t.Bn, round)
 }
 
 func tmplTexts(t tmplTpl, round int) (base, child string) {
@@ -217,7 +257,7 @@ func tmplTexts(t tmplTpl, round int) (base, child string) {
 		sep = "\n"
 	}
 	var cb strings.Builder
-	cb.WriteString("{{extends \"base\"}}")
+	cb.WriteString("{{extends \"" + tmplBaseName(t, round) + "\"}}")
 	for _, b := range t.Ovr {
 		cb.WriteString(sep)
 		tmplSeqText([]tmplNode{b}, round, &cb)
@@ -439,10 +479,10 @@ func tmplRound(c *tmplCase, round int) (ret, text, got, want, pmsg string) {
 			return "dataerr"
 		}
 		eng := document.NewTemplateEngine()
-		if _, err := eng.LoadTemplate("base", base); err != nil {
+		name := tmplBaseName(c.Tpl, round)
+		if _, err := eng.LoadTemplate(name, base); err != nil {
 			return "loaderr"
 		}
-		name := "base"
 		if c.Tpl.Ext {
 			if _, err := eng.LoadTemplate("child", child); err != nil {
 				return "loaderr"
@@ -472,7 +512,7 @@ func tmplRound(c *tmplCase, round int) (ret, text, got, want, pmsg string) {
 func runTmpl(c Case, emit Emitter) {
 	var tc tmplCase
 	if err := json.Unmarshal(c.Extra, &tc); err != nil {
-		emit(Ev{"ev": "step", "case": c.ID, "tpl": map[string]interface{}{"body": []int{}, "ext": false, "ovr": []int{}},
+		emit(Ev{"ev": "step", "case": c.ID, "tpl": map[string]interface{}{"body": []int{}, "ext": false, "ovr": []int{}, "bn": "t1"},
 			"data": map[string]interface{}{}, "exp": []string{"?bad-case"}, "ret": "badcase", "ok": false,
 			"round": 0, "text": "", "got": "", "want": "", "pmsg": err.Error()})
 		return
